@@ -122,10 +122,15 @@ package fsloop
 //@   loop 1 invariant [C08] 0 <= i && consumer.lifecycle == loop.lifecycle && consumer.pool == loop.consumerPool && consumer.loopData == loop.loopData
 //@   trace_ensures [C08] true : SPAWNCLOSER $
 // Wait changes nothing itself; what the walking goroutines report meanwhile is in the frame
-//@ func (*Loop).Wait [C04]
-//@   layers contract
+//@ func (*Loop).Wait [C04 C08]
+//@   layers contract trace
 //@   requires loop != nil && loop.consumerPool != nil
 //@   modifies jobsync.Lifecycle.errors, E:error
+// C08: Wait is the wait of the consumer pool itself (it returns only after the last consumer left),
+// on every path of Wait's own goroutine
+//@   trace (*Pool).Wait as POOLWAIT
+//@   at_call [C08] (*Pool).Wait requires $0 == loop.consumerPool
+//@   trace_ensures [C08] true : ^POOLWAIT $
 
 // the loop's error list is the lifecycle's
 //@ func (*Loop).Errors [C04]
